@@ -333,6 +333,12 @@ package schema
 // ---------------------------------------------------------------------------------------------------------------
 // Generated accessors the event matching rules read (C11): an optional reference is present exactly when its field
 // is set, and the accessor hands back the field itself.
+//@ func (*BaseElement).Id
+//@   prop C18
+//@   flag countresult
+//@   modifies nothing
+//@   flag emits none
+//@   ensures result == t.IdField && (present <==> t.IdField != nil)
 //@ func (*SignalEventDefinition).SignalRef
 //@   prop C11
 //@   modifies nothing
